@@ -318,6 +318,15 @@ func (x *Exec) checkSites(fn *ssa.Function, spec *FuncSpec) {
 					props = append(props, p)
 				}
 			}
+			// a ghost update serves the properties of every clause that reads the ghost variable
+			if c.Kind == "ghost" {
+				for _, p := range ghostReaderProps(spec, rootIdent(c.GhostLHS)) {
+					if !seen[p] {
+						seen[p] = true
+						props = append(props, p)
+					}
+				}
+			}
 		}
 		fail := func(why string) {
 			c := &Clause{Kind: "site-missing", Label: key, Func: x.funcName(fn), Text: why, Props: props}
@@ -367,6 +376,45 @@ func (x *Exec) checkSites(fn *ssa.Function, spec *FuncSpec) {
 			ok()
 		}
 	}
+}
+
+// ghostReaderProps: the property tags of the clauses of spec that mention ghost variable g.
+func ghostReaderProps(spec *FuncSpec, g string) []string {
+	if g == "" {
+		return nil
+	}
+	var out []string
+	add := func(c *Clause) {
+		if c.Kind == "ghost" || len(c.Props) == 0 {
+			return
+		}
+		for _, w := range strings.FieldsFunc(c.Text, func(r rune) bool {
+			return !(r == '_' || r >= 'a' && r <= 'z' || r >= 'A' && r <= 'Z' || r >= '0' && r <= '9')
+		}) {
+			if w == g {
+				out = append(out, c.Props...)
+				return
+			}
+		}
+	}
+	for _, c := range spec.Requires {
+		add(c)
+	}
+	for _, c := range spec.Ensures {
+		add(c)
+	}
+	for _, ls := range spec.Loops {
+		for _, c := range ls.Invariants {
+			add(c)
+		}
+	}
+	for _, ss := range spec.Sites {
+		for _, c := range ss.Clauses {
+			add(c)
+		}
+	}
+	sort.Strings(out)
+	return out
 }
 
 func (x *Exec) initialState(fn *ssa.Function, spec *FuncSpec) *State {
